@@ -244,6 +244,8 @@ def sort_of(ty: Ty):
         return RealS
     if ty.kind in ("bytes", "str", "bytearray"):
         return SeqI
+    if ty.kind == "const":
+        return BoolS  # placeholder sort for maps whose values are all one constant (e.g. None)
     raise Unsupported(f"no SMT sort for element type {ty}")
 
 
